@@ -48,6 +48,22 @@ func constString(info *types.Info, pkgFiles []*ast.File, e ast.Expr, depth int) 
 		return constant.StringVal(tv.Value), true
 	}
 	switch x := e.(type) {
+	case *ast.ParenExpr:
+		return constString(info, pkgFiles, x.X, depth)
+	case *ast.BinaryExpr:
+		// a text assembled with `+` from literals, constants and initialised variables
+		if x.Op != token.ADD {
+			return "", false
+		}
+		a, ok := constString(info, pkgFiles, x.X, depth)
+		if !ok {
+			return "", false
+		}
+		b, ok := constString(info, pkgFiles, x.Y, depth)
+		if !ok {
+			return "", false
+		}
+		return a + b, true
 	case *ast.Ident:
 		obj := info.Uses[x]
 		if obj == nil {
@@ -92,33 +108,145 @@ func constString(info *types.Info, pkgFiles []*ast.File, e ast.Expr, depth int) 
 	return "", false
 }
 
+// introspectionQueryText evaluates the text that is *sent*: the expression given as `Query` of
+// the request built by introspectRemoteSchema (whatever the variable behind it is called).
 func (r *Run) introspectionQueryText() (string, token.Pos, bool) {
 	p := r.P.ByPath[introPkg]
 	if p == nil {
 		return "", token.NoPos, false
 	}
-	// the text passed as Query in the request built by introspectRemoteSchema
+	var sent []ast.Expr
 	for _, f := range p.Syntax {
 		for _, d := range f.Decls {
-			gd, ok := d.(*ast.GenDecl)
-			if !ok {
+			fd, ok := d.(*ast.FuncDecl)
+			if !ok || fd.Body == nil || fd.Name.Name != "introspectRemoteSchema" {
 				continue
 			}
-			for _, sp := range gd.Specs {
-				vs, ok := sp.(*ast.ValueSpec)
+			ast.Inspect(fd.Body, func(nd ast.Node) bool {
+				cl, ok := nd.(*ast.CompositeLit)
 				if !ok {
-					continue
+					return true
 				}
-				for i, n := range vs.Names {
-					if n.Name == "introspectionQuery" && i < len(vs.Values) {
-						s, ok := constString(p.TypesInfo, p.Syntax, vs.Values[i], 0)
-						return s, n.Pos(), ok
+				tv, ok := p.TypesInfo.Types[cl]
+				if !ok || tv.Type == nil || !strings.HasSuffix(namedOf(tv.Type), "requests.Request") {
+					return true
+				}
+				for _, e := range cl.Elts {
+					if kv, ok := e.(*ast.KeyValueExpr); ok {
+						if id, ok := kv.Key.(*ast.Ident); ok && id.Name == "Query" {
+							sent = append(sent, kv.Value)
+						}
 					}
 				}
+				return true
+			})
+		}
+	}
+	if len(sent) != 1 {
+		return "", token.NoPos, false
+	}
+	s, ok := constString(p.TypesInfo, p.Syntax, sent[0], 0)
+	return s, sent[0].Pos(), ok
+}
+
+// decodeStructs: the structs the services' answer is decoded into, found by role — the root is
+// the struct of package introspection with a field decoded from the key "__schema"; the others
+// are the named structs of the package reachable through its fields (embedded ones included).
+func (r *Run) decodeStructs() (root *types.Named, all []*types.Named) {
+	p := r.P.ByPath[introPkg]
+	if p == nil {
+		return nil, nil
+	}
+	scope := p.Types.Scope()
+	for _, name := range scope.Names() {
+		tn, ok := scope.Lookup(name).(*types.TypeName)
+		if !ok {
+			continue
+		}
+		nt, ok := tn.Type().(*types.Named)
+		if !ok {
+			continue
+		}
+		st, ok := nt.Underlying().(*types.Struct)
+		if !ok {
+			continue
+		}
+		for i := 0; i < st.NumFields(); i++ {
+			if jsonKey(st.Tag(i)) == "__schema" {
+				root = nt
 			}
 		}
 	}
-	return "", token.NoPos, false
+	if root == nil {
+		return nil, nil
+	}
+	seen := map[*types.Named]bool{}
+	var visit func(t types.Type, depth int)
+	visit = func(t types.Type, depth int) {
+		for i := 0; i < 6; i++ {
+			switch x := t.(type) {
+			case *types.Pointer:
+				t = x.Elem()
+				continue
+			case *types.Slice:
+				t = x.Elem()
+				continue
+			case *types.Array:
+				t = x.Elem()
+				continue
+			case *types.Map:
+				t = x.Elem()
+				continue
+			}
+			break
+		}
+		nt, ok := t.(*types.Named)
+		if !ok || seen[nt] || nt.Obj().Pkg() == nil || nt.Obj().Pkg().Path() != introPkg {
+			return
+		}
+		st, ok := nt.Underlying().(*types.Struct)
+		if !ok {
+			return
+		}
+		seen[nt] = true
+		all = append(all, nt)
+		for i := 0; i < st.NumFields(); i++ {
+			visit(st.Field(i).Type(), depth+1)
+		}
+	}
+	visit(root, 0)
+	sort.Slice(all, func(i, j int) bool { return all[i].Obj().Name() < all[j].Obj().Name() })
+	return root, all
+}
+
+// jsonFields lists the fields of a decode struct as encoding/json sees them: the fields of an
+// embedded struct without a key of its own are promoted.
+func jsonFields(st *types.Struct, depth int) map[string]*types.Var {
+	out := map[string]*types.Var{}
+	if depth > 4 {
+		return out
+	}
+	for i := 0; i < st.NumFields(); i++ {
+		f := st.Field(i)
+		k := jsonKey(st.Tag(i))
+		if k == "-" {
+			continue
+		}
+		if k == "" {
+			if f.Embedded() {
+				if sub := structOf(f.Type()); sub != nil {
+					for kk, v := range jsonFields(sub, depth+1) {
+						if _, dup := out[kk]; !dup {
+							out[kk] = v
+						}
+					}
+				}
+			}
+			continue
+		}
+		out[k] = f
+	}
+	return out
 }
 
 func jsonKey(tag string) string {
@@ -150,7 +278,7 @@ func ruleIntrospectionQuery(r *Run) {
 	text, pos, ok := r.introspectionQueryText()
 	site := r.P.pos(pos)
 	if !ok {
-		r.Bad(rule, "introspection", "introspection query text", site, "the introspection query constant could not be evaluated statically (no longer a literal / Sprintf of constants)")
+		r.Bad(rule, "introspection", "introspection query text", site, "the text given as Query of the request sent by introspectRemoteSchema could not be evaluated statically (not a literal, a constant, an initialised package variable, a `+` or a Sprintf of those)")
 		return
 	}
 	schema, err := preludeSchema()
@@ -168,9 +296,9 @@ func ruleIntrospectionQuery(r *Run) {
 		r.Bad(rule, "introspection", "single operation", site, "the introspection document does not contain exactly one operation")
 		return
 	}
-	root := r.P.ByPath[introPkg].Types.Scope().Lookup("IntrospectionQueryResult")
+	root, _ := r.decodeStructs()
 	if root == nil {
-		r.Bad(rule, "introspection", "anchor IntrospectionQueryResult", site, "decode struct not found")
+		r.Bad(rule, "introspection", "anchor IntrospectionQueryResult", site, "decode struct not found (no struct of package introspection has a field decoded from the key \"__schema\")")
 		return
 	}
 	n := 0
@@ -208,12 +336,7 @@ func ruleIntrospectionQuery(r *Run) {
 			}
 			selected[k] = f
 		}
-		tags := map[string]*types.Var{}
-		for i := 0; i < st.NumFields(); i++ {
-			if k := jsonKey(st.Tag(i)); k != "" && k != "-" {
-				tags[k] = st.Field(i)
-			}
-		}
+		tags := jsonFields(st, 0)
 		var keys []string
 		for k := range tags {
 			keys = append(keys, k)
@@ -259,7 +382,7 @@ func ruleIntrospectionQuery(r *Run) {
 			}
 		}
 	}
-	st, _ := root.Type().Underlying().(*types.Struct)
+	st, _ := root.Underlying().(*types.Struct)
 	if st == nil {
 		r.Bad(rule, "introspection", "anchor IntrospectionQueryResult", site, "decode root is not a struct")
 		return
@@ -307,19 +430,19 @@ func ruleDecodedFieldsUsed(r *Run) {
 			}
 		}
 	}
-	scope := r.P.ByPath[introPkg].Types.Scope()
+	_, decoded := r.decodeStructs()
+	if len(decoded) == 0 {
+		r.Bad(rule, "introspection", "anchor decode structs", "-", "the structs the answer is decoded into were not found (no struct of package introspection has a field decoded from the key \"__schema\"): nothing could be checked")
+		return
+	}
 	n := 0
-	for _, name := range scope.Names() {
-		if !strings.HasPrefix(name, "Introspection") || name == "IntrospectionResolver" {
-			continue
-		}
-		st, ok := scope.Lookup(name).Type().Underlying().(*types.Struct)
-		if !ok {
-			continue
-		}
+	for _, nt := range decoded {
+		name := nt.Obj().Name()
+		st := nt.Underlying().(*types.Struct)
 		for i := 0; i < st.NumFields(); i++ {
 			f := st.Field(i)
-			if jsonKey(st.Tag(i)) == "" {
+			if k := jsonKey(st.Tag(i)); k == "" || k == "-" {
+				// an embedded struct is a decode struct of its own (its fields are promoted)
 				continue
 			}
 			n++
@@ -331,8 +454,16 @@ func ruleDecodedFieldsUsed(r *Run) {
 		}
 	}
 	r.AtLeast(rule, "decoded fields", n, 25)
-	// sibling constructors of IntrospectionInputValue read the same fields
-	iv, _ := scope.Lookup("IntrospectionInputValue").Type().Underlying().(*types.Struct)
+	// sibling constructors of the input value struct (input fields and arguments are decoded
+	// into the same struct: the parameter of parseInputField) read the same fields
+	var iv *types.Struct
+	ivName := "IntrospectionInputValue"
+	if pf := r.P.Fn("introspection.parseInputField"); pf != nil && pf.Signature.Params().Len() == 1 {
+		if nt, ok := pf.Signature.Params().At(0).Type().(*types.Named); ok {
+			iv, _ = nt.Underlying().(*types.Struct)
+			ivName = nt.Obj().Name()
+		}
+	}
 	if iv != nil {
 		sibs := []string{"introspection.parseInputField", "introspection.parseArgList"}
 		for i := 0; i < iv.NumFields(); i++ {
@@ -355,9 +486,9 @@ func ruleDecodedFieldsUsed(r *Run) {
 				}
 			}
 			if len(missing) == 0 {
-				r.OK(rule, "introspection", "siblings read IntrospectionInputValue."+f.Name(), r.P.pos(f.Pos()), "both constructors of input values read this field")
+				r.OK(rule, "introspection", "siblings read "+ivName+"."+f.Name(), r.P.pos(f.Pos()), "both constructors of input values read this field")
 			} else if len(missing) < len(sibs) {
-				r.Bad(rule, missing[0], "siblings read IntrospectionInputValue."+f.Name(), r.P.pos(f.Pos()), "input fields and arguments are both decoded as IntrospectionInputValue, but "+strings.Join(missing, ", ")+" ignores "+f.Name()+" while its sibling uses it: argument "+strings.ToLower(f.Name())+"s are lost")
+				r.Bad(rule, missing[0], "siblings read "+ivName+"."+f.Name(), r.P.pos(f.Pos()), "input fields and arguments are both decoded as "+ivName+", but "+strings.Join(missing, ", ")+" ignores "+f.Name()+" while its sibling uses it: argument "+strings.ToLower(f.Name())+"s are lost")
 			}
 		}
 	}
@@ -410,43 +541,112 @@ func fullKinds() kset {
 }
 
 // kindSets computes, per block and per kind variable, the set of kinds under which the
-// block can be entered.
-func kindSets(fn *ssa.Function) map[*ssa.BasicBlock]map[kindVar]kset {
+// block can be entered. A branch condition is *evaluated* for each kind (absval.go): a direct
+// comparison with a constant on either side, a negation, a predicate of the module or of
+// gqlparser over the kind (`hasFields(t.Kind)`, `t.IsAbstractType()`), a lookup in a constant
+// table (`kindsWithX[t.Kind]`). A condition that cannot be evaluated admits both branches.
+func kindSets(P *Prog, fn *ssa.Function) map[*ssa.BasicBlock]map[kindVar]kset {
 	in := map[*ssa.BasicBlock]map[kindVar]kset{}
 	vars := map[kindVar]bool{}
-	type test struct {
-		v     kindVar
-		c     string
-		isEq  bool
-		found bool
-	}
-	testOf := func(b *ssa.BasicBlock) test {
-		iff, ok := b.Instrs[len(b.Instrs)-1].(*ssa.If)
-		if !ok {
-			return test{}
+	// kind variables mentioned by a condition (directly, as an argument, as a table index) and
+	// values with a Kind field handed to a predicate
+	var scan func(v ssa.Value, depth int)
+	scan = func(v ssa.Value, depth int) {
+		if depth > 4 || v == nil {
+			return
 		}
-		bo, ok := iff.Cond.(*ssa.BinOp)
-		if !ok || (bo.Op != token.EQL && bo.Op != token.NEQ) {
-			return test{}
+		if kv, ok := kindVarOf(v); ok {
+			vars[kv] = true
+			return
 		}
-		for _, pair := range [][2]ssa.Value{{bo.X, bo.Y}, {bo.Y, bo.X}} {
-			kv, ok := kindVarOf(pair[0])
-			if !ok {
-				continue
+		switch x := v.(type) {
+		case *ssa.UnOp:
+			if x.Op == token.NOT {
+				scan(x.X, depth+1)
 			}
-			if c, ok := unwrap(pair[1]).(*ssa.Const); ok && c.Value != nil && c.Value.Kind() == constant.String {
-				return test{kv, constant.StringVal(c.Value), bo.Op == token.EQL, true}
+		case *ssa.BinOp:
+			scan(x.X, depth+1)
+			scan(x.Y, depth+1)
+		case *ssa.Lookup:
+			scan(x.Index, depth+1)
+		case *ssa.ChangeType:
+			scan(x.X, depth+1)
+		case *ssa.Convert:
+			scan(x.X, depth+1)
+		case *ssa.Call:
+			for _, a := range x.Call.Args {
+				scan(a, depth+1)
+				if st := structOf(a.Type()); st != nil {
+					if _, isSlice := a.Type().Underlying().(*types.Slice); isSlice {
+						continue
+					}
+					for i := 0; i < st.NumFields(); i++ {
+						if st.Field(i).Name() == "Kind" {
+							vars[kindVar{canonBase(a), st.Field(i)}] = true
+						}
+					}
+				}
 			}
 		}
-		return test{}
 	}
 	for _, b := range fn.Blocks {
-		if t := testOf(b); t.found {
-			vars[t.v] = true
+		if iff, ok := b.Instrs[len(b.Instrs)-1].(*ssa.If); ok {
+			scan(iff.Cond, 0)
 		}
 	}
 	if len(vars) == 0 {
 		return in
+	}
+	// the branch taken by block b when kind variable v has kind k: 0, 1, or -1 (either)
+	type bk struct {
+		b *ssa.BasicBlock
+		v kindVar
+		k string
+	}
+	memo := map[bk]int{}
+	ctxs := map[kindVar]map[string]*absCtx{}
+	branch := func(b *ssa.BasicBlock, v kindVar, k string) int {
+		iff, ok := b.Instrs[len(b.Instrs)-1].(*ssa.If)
+		if !ok {
+			return -1
+		}
+		key := bk{b, v, k}
+		if r, ok := memo[key]; ok {
+			return r
+		}
+		if ctxs[v] == nil {
+			ctxs[v] = map[string]*absCtx{}
+		}
+		c := ctxs[v][k]
+		if c == nil {
+			base := v.base
+			c = &absCtx{P: P, kind: k, budget: 100000, memo: map[string][]aval{}, isSubject: func(x ssa.Value) bool {
+				return x == base || canonBase(x) == base
+			}}
+			ctxs[v][k] = c
+		}
+		fr := &frame{c: c, fn: fn, root: true}
+		st := &pathState{env: map[ssa.Value]aval{}, tup: map[ssa.Value][]aval{}, visits: map[*ssa.BasicBlock]int{}}
+		// a predicate called right in this block for the condition
+		for _, ins := range b.Instrs {
+			if call, ok := ins.(*ssa.Call); ok {
+				if res := fr.execCall(call, st); len(res) == 1 {
+					st.env[call] = res[0]
+				} else if len(res) > 1 {
+					st.tup[call] = res
+				}
+			}
+		}
+		r := -1
+		if a := fr.eval(iff.Cond, st); a.k == avConst && a.c.Kind() == constant.Bool && !c.overflow {
+			if constant.BoolVal(a.c) {
+				r = 0
+			} else {
+				r = 1
+			}
+		}
+		memo[key] = r
+		return r
 	}
 	for _, b := range fn.Blocks {
 		in[b] = map[kindVar]kset{}
@@ -460,25 +660,13 @@ func kindSets(fn *ssa.Function) map[*ssa.BasicBlock]map[kindVar]kset {
 	for changed := true; changed; {
 		changed = false
 		for _, b := range fn.Blocks {
-			t := testOf(b)
-			for si, s := range b.Succs {
-				for v := range vars {
-					out := kset{}
-					for k := range in[b][v] {
-						out[k] = true
-					}
-					if t.found && t.v == v {
-						takeEq := (si == 0) == t.isEq
-						if takeEq {
-							out = kset{}
-							if in[b][v][t.c] {
-								out[t.c] = true
-							}
-						} else {
-							delete(out, t.c)
+			for v := range vars {
+				for k := range in[b][v] {
+					br := branch(b, v, k)
+					for si, s := range b.Succs {
+						if br >= 0 && len(b.Succs) == 2 && si != br {
+							continue
 						}
-					}
-					for k := range out {
 						if !in[s][v][k] {
 							in[s][v][k] = true
 							changed = true
@@ -508,41 +696,93 @@ func ruleKindGuardsReader(r *Run) {
 	if root == nil {
 		return
 	}
-	field2key := map[string]string{"Fields": "fields", "Interfaces": "interfaces", "PossibleTypes": "possibleTypes", "EnumValues": "enumValues", "InputFields": "inputFields"}
+	// the kind-specific lists of the answer, by role: the fields of the decode struct of a full
+	// type (the one decoded from `kind` and the kind-specific keys), by their JSON key
+	field2key := map[*types.Var]string{}
+	_, decoded := r.decodeStructs()
+	for _, nt := range decoded {
+		tags := jsonFields(nt.Underlying().(*types.Struct), 0)
+		have := 0
+		for key := range kindsOf {
+			if tags[key] != nil {
+				have++
+			}
+		}
+		if tags["kind"] == nil || have < 3 {
+			continue
+		}
+		for key := range kindsOf {
+			if tags[key] != nil {
+				field2key[tags[key]] = key
+			}
+		}
+	}
+	if len(field2key) == 0 {
+		r.Bad(rule, "introspection", "anchor full-type decode struct", "-", "no decode struct with the keys `kind` and the kind-specific lists was found: the reader's kind guards could not be checked")
+		return
+	}
 	n := 0
+	// per function and key: the kinds for which some read of the list is reachable (a reader
+	// that dispatches on the kind reads `fields` once under OBJECT and once under INTERFACE)
+	covered := map[string]kset{}
+	firstSite := map[string]string{}
+	firstFn := map[string]string{}
+	example := map[string]string{}
 	for fn := range r.P.CG.Reachable([]*ssa.Function{root}, nil) {
-		ks := kindSets(fn)
+		ks := kindSets(r.P, fn)
 		for _, ins := range allInstrs(fn) {
 			var fv *types.Var
-			var owner string
 			switch x := ins.(type) {
 			case *ssa.FieldAddr:
-				fv, owner = fieldOf(x), namedOf(x.X.Type())
+				fv = fieldOf(x)
 			case *ssa.Field:
-				fv, owner = fieldOfVal(x), namedOf(x.X.Type())
+				fv = fieldOfVal(x)
 			}
-			if fv == nil || owner != introPkg+".IntrospectionQueryFullType" {
-				continue
-			}
-			key, ok := field2key[fv.Name()]
-			if !ok {
+			key, ok := field2key[fv]
+			if fv == nil || !ok {
 				continue
 			}
 			n++
-			good := true
-			var why string
-			for v, set := range ks[ins.Block()] {
-				for _, need := range kindsOf[key] {
-					if !set[need] {
-						good = false
-						why = fmt.Sprintf("the read is reachable only for kinds %s of %s.Kind, but the specification gives `%s` for %v", ksetString(set), shortType(v.base.Type()), key, kindsOf[key])
+			key = fnName(fn) + "\x00" + key
+			if covered[key] == nil {
+				covered[key] = kset{}
+			}
+			site := r.P.pos(ins.Pos())
+			if firstSite[key] == "" || site < firstSite[key] {
+				firstSite[key], firstFn[key] = site, fnName(fn)
+			}
+			for _, k := range allKinds {
+				admitted := true
+				for v, set := range ks[ins.Block()] {
+					if !set[k] {
+						admitted = false
+						if example[key] == "" {
+							example[key] = fmt.Sprintf("the read at %s is reachable only for kinds %s of %s.Kind", site, ksetString(set), shortType(v.base.Type()))
+						}
 					}
 				}
+				if admitted {
+					covered[key][k] = true
+				}
 			}
-			r.Check(good, rule, fnName(fn), "read "+fv.Name()+" of the answer", r.P.pos(ins.Pos()),
-				"read for every kind for which the specification answers `"+key+"`",
-				"`"+key+"` of a service's answer is ignored for some kinds that carry it: "+why+" — e.g. interfaces implemented by interfaces, or possible types of interfaces, are lost from the reconstruction")
 		}
+	}
+	var keys []string
+	for k := range covered {
+		keys = append(keys, k)
+	}
+	sort.Strings(keys)
+	for _, fkey := range keys {
+		key := fkey[strings.IndexByte(fkey, 0)+1:]
+		var missing []string
+		for _, need := range kindsOf[key] {
+			if !covered[fkey][need] {
+				missing = append(missing, need)
+			}
+		}
+		r.Check(len(missing) == 0, rule, firstFn[fkey], "read `"+key+"` of the answer", firstSite[fkey],
+			"read for every kind for which the specification answers `"+key+"`",
+			"`"+key+"` of a service's answer is not read for "+fmt.Sprint(missing)+", kinds that carry it ("+example[fkey]+"; the specification gives `"+key+"` for "+fmt.Sprint(kindsOf[key])+"): e.g. the interfaces implemented by an interface, or the fields of an interface, are lost from the reconstruction")
 	}
 	r.AtLeast(rule, "reads of kind-specific answer fields", n, 5)
 	r.AtLeast(rule, "consumptions of kind-specific answer lists", r.kindListConsumers(root, field2key), 5)
@@ -554,11 +794,15 @@ func ruleKindGuardsReader(r *Run) {
 // calls) are collected, following the list through phis (a list replaced by nil on a
 // kind-dependent branch is restricted to the other branches' kinds); at least one consuming
 // effect must be reachable for all the kinds of the specification.
-func (r *Run) kindListConsumers(root *ssa.Function, field2key map[string]string) int {
+func (r *Run) kindListConsumers(root *ssa.Function, field2key map[*types.Var]string) int {
 	const rule = "R11b.read"
 	n := 0
+	// per key, over all reads of the list: the kinds for which some consuming effect is reachable
+	kcov := map[string]kset{}
+	ksite, kfn, kwhy := map[string]string{}, map[string]string{}, map[string]string{}
+	kcount := map[string]int{}
 	for fn := range r.P.CG.Reachable([]*ssa.Function{root}, nil) {
-		ks := kindSets(fn)
+		ks := kindSets(r.P, fn)
 		kindsAt := func(b *ssa.BasicBlock, restr map[kindVar]kset, need []string) (bool, string) {
 			vars := map[kindVar]bool{}
 			for v := range ks[b] {
@@ -586,25 +830,21 @@ func (r *Run) kindListConsumers(root *ssa.Function, field2key map[string]string)
 		}
 		for _, ins := range allInstrs(fn) {
 			var fv *types.Var
-			var owner string
 			var lists []ssa.Value
 			switch x := ins.(type) {
 			case *ssa.FieldAddr:
-				fv, owner = fieldOf(x), namedOf(x.X.Type())
+				fv = fieldOf(x)
 				for _, ref := range *x.Referrers() {
 					if ld, ok := ref.(*ssa.UnOp); ok && ld.Op == token.MUL {
 						lists = append(lists, ld)
 					}
 				}
 			case *ssa.Field:
-				fv, owner = fieldOfVal(x), namedOf(x.X.Type())
+				fv = fieldOfVal(x)
 				lists = append(lists, x)
 			}
-			if fv == nil || owner != introPkg+".IntrospectionQueryFullType" {
-				continue
-			}
-			key, ok := field2key[fv.Name()]
-			if !ok {
+			key, ok := field2key[fv]
+			if fv == nil || !ok {
 				continue
 			}
 			type cons struct {
@@ -709,19 +949,42 @@ func (r *Run) kindListConsumers(root *ssa.Function, field2key map[string]string)
 				continue
 			}
 			n++
-			good, why := false, ""
+			key = fnName(fn) + "\x00" + key
+			if kcov[key] == nil {
+				kcov[key] = kset{}
+			}
+			site := r.P.pos(ins.Pos())
+			if ksite[key] == "" || site < ksite[key] {
+				ksite[key], kfn[key] = site, fnName(fn)
+			}
+			kcount[key] += len(consumers)
 			for _, c := range consumers {
-				if ok, w := kindsAt(c.ins.Block(), c.restr, kindsOf[key]); ok {
-					good = true
-					break
-				} else if why == "" {
-					why = fmt.Sprintf("e.g. the effect at %s is %s", r.P.pos(c.ins.Pos()), w)
+				for _, k := range allKinds {
+					if ok, w := kindsAt(c.ins.Block(), c.restr, []string{k}); ok {
+						kcov[key][k] = true
+					} else if kwhy[key] == "" {
+						kwhy[key] = fmt.Sprintf("e.g. the effect at %s is %s", r.P.pos(c.ins.Pos()), w)
+					}
 				}
 			}
-			r.Check(good, rule, fnName(fn), "consume "+fv.Name()+" of the answer", r.P.pos(ins.Pos()),
-				fmt.Sprintf("%d effect(s) consume the list's elements; at least one is reachable for every kind the specification answers `%s` for", len(consumers), key),
-				"every effect that consumes the elements of `"+key+"` is limited to fewer kinds than "+fmt.Sprint(kindsOf[key])+" ("+why+"): for the other kinds the service's answer is read and then dropped — e.g. an interface that implements another interface loses its `implements` clause")
 		}
+	}
+	var keys []string
+	for k := range kcov {
+		keys = append(keys, k)
+	}
+	sort.Strings(keys)
+	for _, fkey := range keys {
+		key := fkey[strings.IndexByte(fkey, 0)+1:]
+		var missing []string
+		for _, need := range kindsOf[key] {
+			if !kcov[fkey][need] {
+				missing = append(missing, need)
+			}
+		}
+		r.Check(len(missing) == 0, rule, kfn[fkey], "consume `"+key+"` of the answer", ksite[fkey],
+			fmt.Sprintf("%d effect(s) consume the list's elements; for every kind the specification answers `%s` for, at least one is reachable", kcount[fkey], key),
+			"no effect that consumes the elements of `"+key+"` is reachable for "+fmt.Sprint(missing)+" although the specification answers it for "+fmt.Sprint(kindsOf[key])+" ("+kwhy[fkey]+"): for those kinds the service's answer is read and then dropped — e.g. an interface that implements another interface loses its `implements` clause")
 	}
 	return n
 }
@@ -949,7 +1212,7 @@ func ruleResolverSpec(r *Run) {
 		if rs.def.Name != "__Type" || len(rs.sw.cases) < 6 {
 			continue
 		}
-		ks := kindSets(rs.fn)
+		ks := kindSets(r.P, rs.fn)
 		for key, want := range kindsOf {
 			body, ok := rs.sw.cases[key]
 			if !ok {
